@@ -54,8 +54,8 @@ def gen_segments(rng, long_ok=False):
     segs = []
     for _ in range(rng.choice([1, 2, 3, 4, 6])):
         chunk = rng.choice(RAW_CHUNKS)
-        if long_ok and rng.random() < 0.05:
-            chunk = bytes(rng.randrange(256) for _ in range(997)) * 200      # ~200 kB, more than a pipe holds
+        if long_ok and rng.random() < 0.015:
+            chunk = bytes(rng.randrange(256) for _ in range(997)) * 100      # ~100 kB, more than a pipe holds
         segs.append([rng.choice([1, 2]), chunk.hex()])
     return segs
 
@@ -133,6 +133,15 @@ def gen_cmd(rng, fail_bias):
 
 
 def gen_task(rng, name):
+    if rng.random() < 0.15:
+        # only commands that take what they write from files (their echo lines do not contain it)
+        n = rng.choice([1, 2, 3, 4])
+        fail_at = rng.choice([None, None] + list(range(n)))
+        cmds = [['raw', gen_segments(rng), 0 if fail_at is None or i < fail_at else rng.choice([1, 2, 255])]
+                for i in range(n if fail_at is None else fail_at + 1)]
+        if fail_at is not None and rng.random() < 0.3:
+            cmds[-1] = ['missing', rng.choice(['abs', 'rel', 'noexec'])]
+        return {'name': name, 'cmds': cmds}
     n = rng.choice([0, 1, 1, 2, 2, 3, 3, 4, 5])
     # failure position everywhere: choose where (if at all) the first failure is
     cmds = []
@@ -368,6 +377,38 @@ def in_order(chunks, text):
     return True
 
 
+def echo_order_problem(chunks, text, clis, trailing):
+    '''`chunks`: for every command that was started, in order, the bytes it wrote into this stream; `trailing`:
+    whether a command that could not be started follows.  The stream must read  G1 c1 G2 c2 ... Gn cn T  where every
+    gap G (the echo of the command, whatever its format) is non-empty and ends with a newline, i.e. was written
+    after the previous command's output and before the command's own, and T is empty unless commands without output
+    (or one that could not be started) follow.  Returns a description of what is wrong, or None.'''
+    shapes = [shlex.join(cli).encode('utf-8', 'surrogateescape').decode('latin-1') for cli in clis]
+    pos, pending = 0, 0
+    for k, chunk in enumerate(chunks):
+        pending += 1
+        if not chunk:
+            continue
+        if any(chunk in shape for shape in shapes):
+            return None                      # the output could be mistaken for a part of an echo line: no verdict
+        at = text.find(chunk, pos)
+        if at < 0:
+            return None                      # reported by the content clause
+        gap = text[pos:at]
+        if not gap or not gap.endswith('\n'):
+            return (f'the output of command {k} starts at byte {at}, right after {text[max(0, pos - 20):pos]!r}: '
+                    f'its echo line was not written between the previous output and its own (gap {gap[-40:]!r})')
+        pos, pending = at + len(chunk), 0
+    tail = text[pos:]
+    if trailing:
+        pending += 1
+    if pending == 0 and tail:
+        return f'{tail[:80]!r} was written after the output of the last command'
+    if pending and (not tail or not tail.endswith('\n')):
+        return f'the echo lines of the last {pending} command(s) are missing after the last output'
+    return None
+
+
 def oracle(ctx, case, obs):
     def fail(what, key):
         ctx.oracle_failure(f'{what} :: {json.dumps(case)[:400]}', case, key=key)
@@ -436,6 +477,17 @@ def oracle(ctx, case, obs):
         if not in_order([o[3] for o in ran_cmds], err):
             fail(f'task {name!r}: stderr file {err!r} does not contain {[o[3] for o in ran_cmds]} in order',
                  'stderr-content')
+        # echo line of every command before that command's own output and after the previous one's (for commands
+        # whose command line does not contain what they write: the raw ones)
+        started = [(spec, o) for spec, o in zip(tspec['cmds'], outcomes)][:len(expect)]
+        if ran == expect and all(spec[0] == 'raw' for spec, _ in started):
+            clis = obs['clis'][k]
+            trailing = len(expect) < len(outcomes) and not outcomes[len(expect)][0] \
+                and all(o[1] == 0 for _, o in started)
+            problem = echo_order_problem([o[3] for _, o in started], err, clis, trailing)
+            ctx.count('echo_order_checked_runtask')
+            if problem:
+                fail(f'task {name!r}: stderr file: {problem}', 'echo-order')
     # every file below the root lies in the directory of exactly one task
     for path in files:
         if len(path) != 3 or path[:2] not in owners or path[2] not in ('stdout', 'stderr'):
@@ -692,6 +744,12 @@ def oracle_code(ctx, case, obs):
         not_run = [outs[step][2] for step in (0, 1) if step not in ran and len(outs[step][2]) > 3]
         if not in_order(chunks, files[tlog]):
             fail(f'{kind} task {name!r}: log {files[tlog]!r} does not contain {chunks} in order', 'code-log-content')
+        if ran == expect:
+            trailing = len(expect) < 2 and not outs[len(expect)][0] and all(outs[st][1] == 0 for st in expect)
+            problem = echo_order_problem([outs[step][2] for step in ran], files[tlog], obs['clis'][k], trailing)
+            ctx.count('echo_order_checked_code')
+            if problem:
+                fail(f'{kind} task {name!r}: log: {problem}', 'code-echo-order')
     for path in files:
         if path not in owned and not any(path.startswith(d) for d in owned if d.endswith('/')):
             fail(f'{path} does not belong to a task of the case', 'code-stray-file')
